@@ -206,12 +206,7 @@ impl GenerationPass for AvailableValuePass {
                     &mut out_reg_n,
                     &node.memory_values_out(),
                 );
-                rule_zero_to_const(
-                    &mut out_reg_n,
-                    &node.reg_values_in(),
-                    &mut out_memory_n,
-                    &node.memory_values_in(),
-                );
+                rule_zero_to_const(&mut out_reg_n, &mut out_memory_n);
                 rule_perform_math_ops(&node.node(), &mut out_reg_n, &node.reg_values_in());
                 rule_push_value_to_csr_memory(
                     &node.node(),
@@ -242,27 +237,28 @@ impl GenerationPass for AvailableValuePass {
 /// with the zero register.
 fn rule_zero_to_const(
     available_out: &mut AvailableValueMap<Register>,
-    available_in: &AvailableValueMap<Register>,
     memory_out: &mut AvailableValueMap<MemoryLocation>,
-    memory_in: &AvailableValueMap<MemoryLocation>,
 ) {
-    for (reg, val) in available_in {
+    // Values relative to the zero register are constants. This looks at the
+    // values leaving the node: what the node itself defines must not be
+    // replaced by a value that was only true before it.
+    for (reg, val) in available_out.clone() {
         match val {
             AvailableValue::OriginalRegisterWithScalar(r, i)
             | AvailableValue::RegisterWithScalar(r, i) => {
                 if r.is_const_zero() {
-                    available_out.insert(*reg, AvailableValue::Constant(*i));
+                    available_out.insert(reg, AvailableValue::Constant(i));
                 }
             }
             _ => {}
         }
     }
-    for (mem_loc, val) in memory_in {
+    for (mem_loc, val) in memory_out.clone() {
         match val {
             AvailableValue::OriginalRegisterWithScalar(r, i)
             | AvailableValue::RegisterWithScalar(r, i) => {
                 if r.is_const_zero() {
-                    memory_out.insert(mem_loc.clone(), AvailableValue::Constant(*i));
+                    memory_out.insert(mem_loc, AvailableValue::Constant(i));
                 }
             }
             _ => {}
@@ -270,11 +266,6 @@ fn rule_zero_to_const(
     }
 }
 
-/// Rule that uses known addresses for load instructions to expand their represenation.
-///
-/// If a load instruction is found and the register where the address is contains
-/// a reference to a register value or memory address, then replace the loaded value
-/// with a reference to the specific memory location.
 fn rule_expand_address_for_load(
     node: &ParserNode,
     available_out: &mut AvailableValueMap<Register>,
